@@ -662,7 +662,7 @@ class Gen:
         if name in ("construct",):
             cands = [None]
         elif slot is not None:
-            cands = [slot]
+            cands = [] if (self.metas[slot].get("unusable") or self.metas[slot].get("invalid")) else [slot]
         else:
             cands = self.shuffled(self.slots("arr") + (self.slots("vec") if name in VEC_OPS else []))
             if self.chain:
